@@ -254,7 +254,7 @@ def one_case(args):
 def run(res):
     exe = build.fastpasta("rel")
     wd = scratch("c20")
-    n = 150 if res.tier == "quick" else 3000
+    n = 150 if res.tier == "quick" else 12000
     for o in pmap(one_case, [(exe, wd, res.seed, c, res.tier) for c in range(n)]):
         res.evaluations += 1
         res.count("facts_compared", o["events"])
